@@ -371,10 +371,12 @@ def index_fasta_file(file: Path, buffer_size: int = 250_000):
                 # second to last byte will be ord("\r") == 13
                 line_end_bytes = 2 if line[-2] == 13 else 1
             else:
+                # The last line of the file may lack a line ending
+                seq_line = line[:-line_end_bytes] if line[-1] == 10 else line
                 if not residues_per_line:
-                    residues_per_line = len(line) - line_end_bytes
+                    residues_per_line = len(seq_line)
 
-                seq_buffer.write(line[:-line_end_bytes])
+                seq_buffer.write(seq_line)
                 if seq_buffer.tell() > buffer_size:
                     process_seq_buffer()
 
